@@ -52,20 +52,27 @@ def grammar_text(case):
     return cfg2.to_parglare(extra_rules=extra_rules, extra_terminals=extra_terms)
 
 
-def x_recognizer(input, pos):
-    # raises on '!' and - so that a parse can be aborted while *another* head of the same frontier has
-    # already found its token - on a terminal's text directly followed by '!' ("b!": 'b' matches there)
-    if input[pos] == BANG or input[pos + 1:pos + 2] == BANG:
-        raise RuntimeError("recognizer boom")
-    if input[pos] == "x":
-        return "x"
+EXCEPTIONS = {"RuntimeError": RuntimeError, "TypeError": TypeError, "ValueError": ValueError, "KeyError": KeyError,
+              "IndexError": IndexError, "AttributeError": AttributeError, "AssertionError": AssertionError}
 
 
-def make_grammar(text, has_x):
-    return pgl.Grammar.from_string(text, recognizers={"x": x_recognizer} if has_x else None)
+def make_x_recognizer(exc):
+    def x_recognizer(input, pos):
+        # raises on '!' and - so that a parse can be aborted while *another* head of the same frontier has
+        # already found its token - on a terminal's text directly followed by '!' ("b!": 'b' matches there).
+        # Which exception a user's code raises is the user's business (parglare itself dispatches on some).
+        if input[pos] == BANG or input[pos + 1:pos + 2] == BANG:
+            raise exc("recognizer boom")
+        if input[pos] == "x":
+            return "x"
+    return x_recognizer
 
 
-def make_actions(cfg):
+def make_grammar(text, has_x, exc=RuntimeError):
+    return pgl.Grammar.from_string(text, recognizers={"x": make_x_recognizer(exc)} if has_x else None)
+
+
+def make_actions(cfg, exc=RuntimeError):
     acts = {}
     for n in cfg.nts:
         def mk(name):
@@ -75,7 +82,7 @@ def make_actions(cfg):
         acts[n] = mk(n)
     if BOOM_TERMINAL in cfg.term_names:
         def boom(context, value):
-            raise RuntimeError("action boom")
+            raise exc("action boom")
         acts[BOOM_TERMINAL] = boom
     return acts
 
@@ -134,6 +141,7 @@ def interpret(case, fresh_each_time):
     cfg = CFG.from_json(case["g"])
     text = grammar_text(case)
     has_x = "x" in cfg.term_names
+    exc = EXCEPTIONS[case.get("exc", "RuntimeError")]
     inputs = case["inputs"]
     outcomes = []
     grammar = None
@@ -142,12 +150,12 @@ def interpret(case, fresh_each_time):
         if op["op"] == "build":
             spec = op["spec"]
             if fresh_each_time:
-                g = make_grammar(text, has_x)
+                g = make_grammar(text, has_x, exc)
             else:
                 if grammar is None:
-                    grammar = make_grammar(text, has_x)
+                    grammar = make_grammar(text, has_x, exc)
                 g = grammar
-            p, out = build(g, spec, make_actions(cfg))
+            p, out = build(g, spec, make_actions(cfg, exc))
             parsers.append((p, spec))
             outcomes.append(out)
         else:
@@ -157,7 +165,7 @@ def interpret(case, fresh_each_time):
                 continue
             p, spec = parsers[op["parser"] % len(parsers)]
             if fresh_each_time:
-                p, _ = build(make_grammar(text, has_x), spec, make_actions(cfg))
+                p, _ = build(make_grammar(text, has_x, exc), spec, make_actions(cfg, exc))
             if p is None:
                 outcomes.append(("no-parser",))
                 continue
@@ -277,6 +285,7 @@ def cases(draw):
         else:
             ops.append({"op": "parse", "parser": draw(st.integers(0, 5)), "input": draw(st.integers(0, 5))})
     return {"g": g, "layout": draw(st.integers(0, 2)) == 0, "unproductive": draw(st.integers(0, 7)) == 0,
+            "exc": draw(st.sampled_from(["RuntimeError", "RuntimeError"] + sorted(EXCEPTIONS))),
             "inputs": inputs, "ops": ops}
 
 
